@@ -270,6 +270,18 @@ def coq_check(pid, extra_targets=()):
         with ThreadPoolExecutor(max_workers=8) as ex:
             results = list(ex.map(check_one_prop, props))
     closure = dep_closure(list(props) + [x[:-1] for x in extra_targets])
+    # a source whose compiled file is missing or older did not build in this run: every theorem
+    # that depends on it is not discharged (make -k leaves old .vo files in place)
+    def stale(rel):
+        vo = os.path.join(COQ, rel + "o")
+        return (not os.path.exists(vo)) or os.path.getmtime(vo) < os.path.getmtime(os.path.join(COQ, rel))
+    stale_files = [f for f in closure if not f.startswith("Props/") and stale(f)]
+    if stale_files:
+        for r in results:
+            bad = [f for f in dep_closure([r["file"]]) if f in stale_files]
+            if bad and r["ok"]:
+                r["ok"] = False
+                r["out"] = "depends on source file(s) that did not compile in this run: %s" % ", ".join(bad)
     gate = grep_gate(closure)
     gate_elsewhere = [h for h in grep_gate() if h not in gate]
     extra_ok = all(os.path.exists(os.path.join(COQ, x)) and
